@@ -9,7 +9,7 @@ def knobs(r, i):
 
 
 def run(v, tier, seed, replay):
-    cases, impl, model = seqcheck.run(v, tier, seed, replay, "C04", ["C04", "Fifo", "Parked"], tree_oracles=["no_panic", "exactly_once", "tree", "attachments", "retained"], knobs=knobs,
+    cases, impl, model = seqcheck.run(v, tier, seed, replay, "C04", ["C04", "Fifo", "Parked"], tree_oracles=["no_panic", "exactly_once", "tree", "attachments_owner", "retained"], knobs=knobs,
                  n_quick=(1800, 300), n_thorough=(60000, 5000),
                  assumptions=["queue-full episodes around cancel/finish are exercised in the C09 tier (forced commands FIFO, D2 fix)",
                               "a thread exiting with parked commands and a full queue can lose the drop (open finding D3, outside the stated property)"])
